@@ -19,9 +19,10 @@ struct G {
 
 static Json mk(const char *op) { Json j = Json::obj(); j.set("op", op); return j; }
 
-static Cfg rs_shape(Rng &r, int be) {
+static Cfg rs_shape(Rng &r, int be, bool allow_m0 = false) {
     Cfg c; c.be = be; c.hd = 0;
     unsigned x = (unsigned) r.below(100);
+    if (allow_m0 && r.chance(1, 30)) { c.k = (int) r.range(1, 32); c.m = 0; c.hd = 0; return c; }   // no parity at all: tolerance 0
     if (x < 22) { c.k = (int) r.range(1, 31); c.m = 32 - c.k; }                       // k+m = 32 (bitmap edge)
     else if (x < 32) { c.k = 1; c.m = (int) r.range(1, 31); }
     else if (x < 42) { c.m = 1; c.k = (int) r.range(1, 31); }
@@ -34,13 +35,13 @@ static Cfg xor_shape_index(int t) {
     const XorGolden &g = XOR_GOLDEN[((t % XOR_GOLDEN_N) + XOR_GOLDEN_N) % XOR_GOLDEN_N];
     Cfg c; c.be = BE_XOR; c.k = g.k; c.m = g.m; c.hd = g.hd; return c;
 }
-static Cfg any_coded_shape(Rng &r, bool isal_only = false, bool no_isal = false) {
+static Cfg any_coded_shape(Rng &r, bool isal_only = false, bool no_isal = false, bool allow_m0 = false) {
     unsigned x = (unsigned) r.below(100);
-    if (isal_only) return rs_shape(r, r.chance(1, 2) ? BE_IV : BE_IC);
-    if (no_isal) return x < 55 ? rs_shape(r, BE_RS) : xor_shape_index((int) r.below(XOR_GOLDEN_N));
-    if (x < 40) return rs_shape(r, BE_RS);
+    if (isal_only) return rs_shape(r, r.chance(1, 2) ? BE_IV : BE_IC, allow_m0);
+    if (no_isal) return x < 55 ? rs_shape(r, BE_RS, allow_m0) : xor_shape_index((int) r.below(XOR_GOLDEN_N));
+    if (x < 40) return rs_shape(r, BE_RS, allow_m0);
     if (x < 75) return xor_shape_index((int) r.below(XOR_GOLDEN_N));
-    return rs_shape(r, x < 88 ? BE_IV : BE_IC);
+    return rs_shape(r, x < 88 ? BE_IV : BE_IC, allow_m0);
 }
 static int word_bytes(const Cfg &c) { return c.be == BE_RS ? 2 : c.be == BE_XOR ? 4 : be_is_isal(c.be) ? 1 : 4; }
 
@@ -55,7 +56,7 @@ static u64 pick_len(G &g, const Cfg &c) {
     if (x < 30) return 16 * c.k * r.range(1, 8) + r.range(-1, 1) * (i64) r.chance(1, 2);
     if (x < 90) return (u64) r.range(2, 4096);
     if (x < 98) return (u64) r.range(4097, g.thorough ? 65536 : 20000);
-    if (!g.thorough && r.chance(3, 4)) return (u64) r.range(4097, 40000);
+    if (!g.thorough && r.chance(1, 2)) return (u64) r.range(4097, 40000);
     return (u64) r.range(65537, 1 << 20);   // rare in the quick tier (~0.5 % of objects), 2 % in thorough
 }
 
@@ -88,7 +89,12 @@ static Json delivery(G &g, u64 mask, int n, bool shape_faults) {
         }
     }
     Json dl = Json::arr();
-    for (int d : idx) { Json e = Json::obj(); e.set("dev", d).set("al", shape_faults ? pick_al(r) : 16); dl.push(e); }
+    std::set<int> seen;
+    for (int d : idx) {
+        Json e = Json::obj(); e.set("dev", d).set("al", shape_faults ? pick_al(r) : 16);
+        if (!seen.insert(d).second && r.chance(1, 2)) e.set("same", 1);   // the very same buffer passed twice, not a copy
+        dl.push(e);
+    }
     return dl;
 }
 static u64 random_subset(Rng &r, int n, int size) {
@@ -115,10 +121,11 @@ static u64 survivors_within(G &g, const Cfg &c) {
 
 // ------------------------------------------------------------------ C01 / C03 / C19 (within tolerance, pristine)
 static void gen_roundtrip(G &g, bool isal) {
-    Cfg c = isal ? any_coded_shape(g.world, true) : any_coded_shape(g.world);
+    Cfg c = isal ? any_coded_shape(g.world, true, false, true) : any_coded_shape(g.world, false, false, true);
     c.ct = g.world.chance(1, 2) ? 2 : 1;
     if (g.world.chance(1, 20)) c.ct = 3;   // CHKSUM_MD5: accepted by create, no checksum is computed for it
     if (g.world.chance(1, 10)) c.w = isal ? 8 : 0;
+    if (isal && g.world.chance(1, 8)) { static const int ws[] = {8, 16, 32}; c.w = ws[g.world.below(3)]; }   // accepted word sizes
     g.ops.push(create_op(0, c));
     bool free_run = g.world.chance(1, 4);  // fault-free configuration, run separately
     int nobj = g.plan.chance(1, 4) ? 2 : 1;
@@ -129,6 +136,7 @@ static void gen_roundtrip(G &g, bool isal) {
             u64 s = free_run ? full(c.n()) : survivors_within(g, c);
             Json j = mk("GET"); j.set("obj", o).set("slot", 0).set("force", g.faults.chance(1, 3) ? 1 : 0).set("dl", delivery(g, s, c.n(), !free_run));
             g.ops.push(j);
+            if (g.plan.chance(1, 8)) g.ops.push(j);   // the same call again: results must not depend on what a previous call left behind
         }
         int reps = (int) g.plan.range(1, 3);
         for (int i = 0; i < reps; i++) {
@@ -141,6 +149,7 @@ static void gen_roundtrip(G &g, bool isal) {
             else { static const int bad[] = {-1, 0, 1, 2, INT32_MAX, INT32_MIN}; int b = bad[g.plan.below(6)]; dest = (b >= 0 && b <= 2) ? c.n() + b : b; }
             j.set("dest", dest).set("oal", pick_al(g.faults)).set("dl", delivery(g, s, c.n(), !free_run));
             g.ops.push(j);
+            if (g.plan.chance(1, 8)) g.ops.push(j);
         }
     }
     if (g.plan.chance(1, 2)) { Json d = mk("DESTROY"); d.set("slot", 0); g.ops.push(d); }
